@@ -70,8 +70,12 @@ func (x *Exec) inlinableLoops(callee *ssa.Function, loopsOK bool) bool {
 		}
 		for _, in := range b.Instrs {
 			switch in := in.(type) {
-			case *ssa.Defer, *ssa.RunDefers, *ssa.Go, *ssa.Range, *ssa.Next:
+			case *ssa.Defer, *ssa.RunDefers, *ssa.Go:
 				return false
+			case *ssa.Range, *ssa.Next:
+				if !loopsOK {
+					return false // a map range is a loop: only under the caller's loop invariants
+				}
 			case *ssa.MakeClosure:
 				// a method value (x.m) is fine: it binds only its receiver; a function
 				// literal would need its own contract
